@@ -51,8 +51,9 @@ fn value(rng: &mut StdRng, depth: u32) -> Value {
     }
 }
 
-const CORE_IDS: [&str; 8] = ["family_name", "given_name", "birth_date", "portrait", "driving_privileges", "age_over_18", "height", "issue_date"];
-const AAMVA_IDS: [&str; 4] = ["organ_donor", "DHS_compliance", "resident_county", "aamva_version"];
+// "sex" exists in both namespaces of the mDL data model: the same identifier under two namespaces
+const CORE_IDS: [&str; 9] = ["family_name", "given_name", "birth_date", "portrait", "driving_privileges", "age_over_18", "height", "issue_date", "sex"];
+const AAMVA_IDS: [&str; 5] = ["organ_donor", "DHS_compliance", "resident_county", "aamva_version", "sex"];
 
 pub fn run(ctx: &mut Ctx) {
     let sessions = ctx.budget(25, 1200);
@@ -133,6 +134,10 @@ pub fn run(ctx: &mut Ctx) {
                 pm.insert(ns.clone(), p);
             }
             if rng.gen_bool(0.2) { pm.insert("org.example.ns-not-requested".into(), vec!["family_name".into()]); }
+            // some rounds deliver nothing at all (the holder declines) or nothing from the core namespace; the
+            // session must go on afterwards
+            let declined = round + 1 < nrounds && rng.gen_bool(0.25);
+            if declined { if rng.gen_bool(0.5) { pm.clear(); } else { pm.remove(NS); } ctx.count("round:declined"); }
             perm.insert(MDL.to_string(), pm);
             if rng.gen_bool(0.3) { perm.insert("org.example.other".into(), [(NS.to_string(), vec!["x".to_string()])].into_iter().collect()); }
             let permitted: PermittedItems = perm.clone();
